@@ -4,7 +4,13 @@ proof gate (coq/Props/C07.v: index arithmetic + form algebra)  +  correspondence
 integers; every single operation of every generated history against Model/MpsForm.v; get_theta probes)  +
 oracle: dense reference states built with numpy only (harness/mps_gen.py) against get_full_wavefunction, against an
 explicit contraction of the STORED tensors according to their recorded form labels, reduced density matrices on a
-three-cell window for infinite / segment states, Schmidt values / entropies / spectra / norm_test / total charge.
+three-cell window for infinite / segment states, Schmidt values / entropies / spectra / norm_test / total charge;
+entanglement_spectrum(by_charge=True) against the dense Schmidt decomposition restricted to each charge sector (finite
+and segment states, every constructor and history); stream covering-x: crossing local MPS with many charge sectors per
+bond and generic weights, every history passing through the 'A' and 'C' forms; stream segment-dense: segments with
+non-trivial outer bonds on both sides, dense state INCLUDING segment_boundaries (U_L, V_R) and psi.norm, embedded into
+the Schmidt states of the parent, through histories of repeated canonical_form / apply_local_op interleaved with
+set_B of perturbed tensors near both boundaries; MPS.overlap with a copy taken before every such operation.
 """
 import json
 
@@ -156,6 +162,74 @@ def cmp_spec(s_impl, s_ref, tol=1e-7):
     if len(a) and np.max(np.abs(a - b)) > tol:
         return 'max deviation %.2e' % np.max(np.abs(a - b))
     return None
+
+
+def dense_sector_schmidt(vec, cut, S, site0=0, key=None):
+    """{total charge of the sites left of the cut: Schmidt values of the dense tensor restricted to that sector}.
+    A state of definite total charge is block diagonal in (charge left of the cut, charge right of the cut), so the
+    Schmidt decomposition splits into the SVDs of the blocks; `vec` axes are the sites site0.. of S."""
+    if key is not None and (key, cut, 'q') in _ds_cache:
+        return _ds_cache[(key, cut, 'q')]
+    dl = int(np.prod(vec.shape[:cut]))
+    M = vec.reshape(dl, -1)
+    M = M / np.linalg.norm(M)
+    nq = len(S.mod)
+    tl = S.total_charge(list(range(site0, site0 + cut))).reshape(dl, nq)
+    tr = S.total_charge(list(range(site0 + cut, site0 + vec.ndim))).reshape(-1, nq)
+    out = {}
+    for Q in sorted(set(tuple(int(x) for x in t) for t in tl)):
+        rows = np.flatnonzero(np.all(tl == np.array(Q), axis=1))
+        blk = M[rows]
+        cols = np.flatnonzero(np.abs(blk).sum(axis=0) > 0)
+        if len(cols) == 0:
+            continue
+        # (the columns of one left sector all carry the same right charge when the total charge is definite)
+        if len(set(tuple(int(x) for x in tr[c]) for c in cols)) != 1:
+            out = None
+            break
+        out[Q] = np.linalg.svd(blk[:, cols], compute_uv=False)
+    if key is not None:
+        _ds_cache[(key, cut, 'q')] = out
+    return out
+
+
+def cmp_sector_spectra(rows, vals, ref, mod, tol=1e-7):
+    """entanglement_spectrum(by_charge=True) of one bond (rows = [[charge, count], ...], vals = concatenated
+    entanglement energies) against the dense per-sector Schmidt values `ref`.  The documentation does not fix the
+    origin of the charge labels of a bond, so a common shift of all labels of the bond is allowed."""
+    got = {}
+    pos = 0
+    for q, n in rows:
+        x = np.exp(-np.asarray(vals[pos:pos + n], dtype=float) / 2.)
+        pos += n
+        q = tuple(int(a) % m if m > 1 else int(a) for a, m in zip(q, mod))
+        got[q] = np.concatenate([got.get(q, np.zeros(0)), x])
+    got = {q: np.sort(v[v > tol])[::-1] for q, v in got.items() if np.any(v > tol)}
+    want = {q: np.sort(v[v > tol])[::-1] for q, v in ref.items() if np.any(v > tol)}
+    if not got or not want:
+        return None if (not got and not want) else 'no Schmidt weight on one side'
+    valid = lambda q: tuple(int(a) % m if m > 1 else int(a) for a, m in zip(q, mod))
+    q0 = max(want, key=lambda q: want[q][0])
+    msgs = []
+    for qg in sorted(got):
+        shift = [a - c for a, c in zip(qg, q0)]
+        mapped = {}
+        for q, v in want.items():
+            mapped[valid([a + c for a, c in zip(q, shift)])] = v
+        msg = None
+        for q in sorted(set(mapped) | set(got)):
+            a, c = got.get(q, np.zeros(0)), mapped.get(q, np.zeros(0))
+            n = max(len(a), len(c))
+            a = np.concatenate([a, np.zeros(n - len(a))])
+            c = np.concatenate([c, np.zeros(n - len(c))])
+            if np.max(np.abs(a - c)) > 4 * tol:
+                msg = 'with the labels of the dense sectors shifted by %s: sector %s holds Schmidt values %s, the dense state has %s there' % (
+                    shift, list(q), np.round(a, 6).tolist()[:6], np.round(c, 6).tolist()[:6])
+                break
+        if msg is None:
+            return None
+        msgs.append((len(set(mapped) ^ set(got)), msg))
+    return min(msgs)[1]
 
 
 # ------------------------------------------------------------------------------------------------ generation
@@ -396,6 +470,17 @@ def check_finite(ctx, case, r, A, key, D, SI):
                             cut, np.sum(np.exp(-sp / 2) > 1e-7), np.sum(sd > 1e-7)), k)
                     elif n and np.max(np.abs(np.exp(-sp[:n] / 2) - np.exp(-want_sp[:n] / 2))) > 1e-7:
                         fail('entanglement_spectrum at bond %d differs from the dense Schmidt spectrum' % cut, k)
+            if 'spec_q' in o and S.mod:
+                for cut in range(1, L):
+                    if cut - 1 >= len(o['spec_q']) or kk + '_specq%d' % (cut - 1) not in A:
+                        continue
+                    refq = dense_sector_schmidt(vt, cut, S, key=('f', id(D)))
+                    if refq is None:
+                        continue
+                    m = cmp_sector_spectra(o['spec_q'][cut - 1], A[kk + '_specq%d' % (cut - 1)], refq, S.mod)
+                    if m:
+                        fail('entanglement_spectrum(by_charge=True) at bond %d: the Schmidt values do not sit in the charge sectors of the '
+                             'dense Schmidt decomposition (%s)' % (cut, m), k)
             if 'entropy' in o and (len(o['entropy']) != L - 1 or max([abs(a - c) for a, c in zip(o['entropy'], ents)] + [0]) > 1e-7):
                 fail('entanglement_entropy %s, dense state %s' % (o['entropy'], ents), k)
             if o.get('norm_test', 0) > 1e-8:
@@ -492,6 +577,7 @@ def check_segment(ctx, case, r, A, key, Dpar, SI):
     info = {'stream': 'segment', 'case': case}
     segs = case['want']['rdm']
     ref = FiniteRef(vec, Dpar['norm'], True)
+    Spar = G.Sites(par['sites'], SI)
 
     def fail(msg, step, mk=None):
         ctx.fail('oracle', 'segment [%d,%d] of a finite MPS built by %s, after %d operation(s) %s: %s' % (
@@ -529,9 +615,228 @@ def check_segment(ctx, case, r, A, key, Dpar, SI):
                 m = cmp_spec(Ss[cut], dense_schmidt(vec, g, key=('s', id(Dpar))))
                 if m:
                     fail('stored _S[%d] are not the Schmidt coefficients of the parent state at that cut (%s)' % (cut, m), k)
+                if 'spec_q' in o and Spar.mod and cut < len(o['spec_q']) and kk + '_specq%d' % cut in A and all(f is not None for f in forms):
+                    refq = dense_sector_schmidt(vec, g, Spar, key=('s', id(Dpar)))
+                    m = refq and cmp_sector_spectra(o['spec_q'][cut], A[kk + '_specq%d' % cut], refq, Spar.mod)
+                    if m:
+                        fail('entanglement_spectrum(by_charge=True) at bond %d: the Schmidt values do not sit in the charge sectors of the '
+                             'Schmidt decomposition of the parent state (%s)' % (cut, m), k)
             if o.get('norm_test', 0) > 1e-8:
                 fail('norm_test() = %.2e in canonical form' % o['norm_test'], k)
         lastk = k
+
+
+# ------------------------------------------------------------------------------------------------ segment-dense
+
+def mat_json(m):
+    m = np.asarray(m, dtype=complex)
+    return [m.real.tolist(), m.imag.tolist()]
+
+
+def gen_segment_dense_case(rng, SI):
+    """segment with non-trivial outer bonds on both sides + a history in which canonical_form (explicit, or implicit
+    in apply_local_op with a non-unitary operator) is repeated with modifications of the state in between:
+    set_B of perturbed tensors and local operators near both boundaries, rescaled tensors, form conversions"""
+    Lp = rng.choice([4, 5, 5, 6, 6, 7])
+    kinds = G.gen_sites(rng, Lp, maxdim=800)
+    Lp = len(kinds)
+    m = rng.choice(['full', 'full', 'full', 'bflat', 'circuit'])
+    par = {'bc': 'finite', 'sites': kinds, 'build': G.gen_finite_build(rng, kinds, [m])}
+    if par['build']['method'] == 'bflat':
+        par['build']['chi'] = [1] + [max(c, 2) for c in par['build']['chi'][1:-1]] + [1]
+    if Lp >= 4 and rng.random() < 0.85:
+        first = rng.randrange(1, Lp - 2)
+        last = rng.randrange(first + 1, Lp - 1)
+    else:
+        first = rng.randrange(0, Lp - 1)
+        last = rng.randrange(first + 1, Lp)
+    n = last - first + 1
+    seg_kinds = kinds[first:last + 1]
+    S = G.Sites(seg_kinds, SI)
+    nrng = np.random.default_rng(rng.randrange(1 << 30))
+    cplx_ok = par['build']['cplx']
+
+    def site():
+        r = rng.random()
+        return 0 if r < 0.35 else (n - 1 if r < 0.7 else rng.randrange(n))
+
+    def modification():
+        r = rng.random()
+        if r < 0.35:
+            return [{'op': 'set_B_perturbed', 'i': site(), 'form': rng.choice(G.FORMS), 'seed': rng.randrange(1 << 30),
+                     'eps': rng.choice([0.05, 0.3, 0.7]), 'cplx': cplx_ok and rng.random() < 0.7}]
+        if r < 0.75:
+            k = 1 if (n < 2 or rng.random() < 0.6) else 2
+            i = site()
+            i = min(i, n - k)
+            uni = rng.random() < 0.3
+            mat = G.random_gate(nrng, S, list(range(i, i + k)), cplx_ok, unitary=uni)
+            return [{'op': 'apply_local_op', 'i': i, 'n': k, 'mat': mat_json(mat), 'unitary': rng.choice([None, uni]),
+                     'renormalize': rng.random() < 0.3, 'overlap': True}]
+        if r < 0.85:
+            return [{'op': 'set_B_scaled', 'i': site(), 'form': rng.choice(G.FORMS),
+                     'c': [rng.choice([0.5, 2.0, -1.5, 3.0]), rng.choice([0.0, 0.0, 0.5]) if cplx_ok else 0.0]}]
+        if r < 0.93:
+            return [{'op': 'convert_form', 'forms': G.gen_forms(rng, n)}]
+        return [{'op': 'set_svd_theta', 'i': rng.randrange(n - 1)}]
+    ops = []
+    for _ in range(rng.randint(2, 4)):
+        for _ in range(rng.choice([1, 1, 2])):
+            ops += modification()
+        if rng.random() < 0.85:
+            ops.append({'op': 'canonical_form', 'renormalize': rng.random() < 0.5, 'overlap': True})
+    spec = {'bc': 'segment', 'sites': seg_kinds, 'parent': par, 'segment': [first, last]}
+    return {'state': spec, 'ops': ops, 'want': {'rdm': [], 'seg_env': True}, 'stream': 'segment-dense'}
+
+
+def segment_dense(A, kk, o):
+    """what a segment MPS denotes, dense and in the ORIGINAL bases of its outer virtual legs:
+    psi.norm * U_L . (s Gamma s ... Gamma s, by the recorded form labels) . V_R, axes (vL, p_0 .. p_n-1, vR)"""
+    Bs, Ss, forms = stored(A, kk, o)
+    if any(f is None for f in forms) or any(x is None for x in Ss):
+        return None
+    th = G.explicit_theta(Bs, Ss, forms, 0, o['L'], True)
+    if kk + '_UL' in A:
+        th = np.tensordot(A[kk + '_UL'], th, axes=(1, 0))
+    if kk + '_VR' in A:
+        th = np.tensordot(th, A[kk + '_VR'], axes=(-1, 0))
+    return th * cplx(o['norm'])
+
+
+def check_segment_dense(ctx, case, r, A, key, Dpar, SI):
+    """The state of a segment MPS includes the recorded basis changes `segment_boundaries` of its outer legs.  After
+    every operation the dense state (original outer bases, psi.norm included) must be the documented image of the
+    dense state before; embedded into the Schmidt states of the parent it must be the (transformed) parent state;
+    in canonical form the stored singular values are the Schmidt values of that embedded state at every cut incl. the
+    outer bonds; tenpy's own overlap between a copy taken before and the state after must agree with the dense one."""
+    spec = case['state']
+    first, last_site = spec['segment']
+    par = spec['parent']
+    n = last_site - first + 1
+    obs = r['obs']
+    ops = case.get('ops', [])
+    info = {'stream': 'segment-dense', 'case': case}
+    tol = 2e-8
+
+    def fail(msg, step, mk=None):
+        ctx.fail('oracle', 'segment [%d,%d] of a finite MPS (L=%d, built by %s; outer bonds chi=%s), after %d operation(s) %s: %s' % (
+            first, last_site, len(par['sites']), par['build']['method'], [obs[0]['chi'][0], obs[0]['chi'][-1]] if obs[0].get('chi') else '?',
+            step, [o_['op'] + ('(renormalize=%s)' % o_['renormalize'] if 'renormalize' in o_ else '') for o_ in ops[:step]], msg), info,
+            match_key=mk or 'C07:segment-dense')
+
+    def embed(t):
+        if key + '_envL' in A:
+            t = np.tensordot(A[key + '_envL'], t, axes=(1, 0))
+        if key + '_envR' in A:
+            t = np.tensordot(t, A[key + '_envR'], axes=(-1, 0))
+        return t
+    if 'env_error' in r:
+        fail('the Schmidt states of the parent could not be built: ' + r['env_error'], 0)
+    ref = None          # dense state (norm included) the segment has to denote
+    canon = True
+    ncanon = 0          # canonicalisations performed on a state that was modified since the previous one
+    modified = False
+    for k, o in enumerate(obs):
+        if o is None:
+            continue
+        kk = '%s_%d' % (key, k)
+        if 'sanity' in o:
+            fail('test_sanity raises ' + o['sanity'], k)
+        cur = segment_dense(A, kk, o)
+        if cur is None:
+            fail('a stored tensor lost its form label / singular values', k)
+            return 0
+        nrm = cplx(o['norm'])
+        if k == 0:
+            want = Dpar['vec'].reshape(-1)
+            got = embed(cur).reshape(-1)
+            if got.shape != want.shape or np.linalg.norm(got - want) > tol * np.linalg.norm(want):
+                fail('the segment contracted with the Schmidt states of the parent on both sides is not the parent state '
+                     '(relative difference %.2e)' % (np.linalg.norm(got - want) / np.linalg.norm(want) if got.shape == want.shape else -1), k)
+            ref = cur
+            continue
+        op = ops[k - 1]
+        t = op['op']
+        prev = ref
+        prev_nrm = cplx([o_ for o_ in obs[:k] if o_ is not None][-1]['norm'])
+        exact = True          # the operation is documented to keep track of the norm
+        if t == 'set_B_scaled':
+            want = ref * cplx(op['c'])
+            canon, modified = False, True
+        elif t == 'apply_local_op':
+            mat = np.array(op['mat'][0]) + 1j * np.array(op['mat'][1])
+            want = G.apply_on(ref, mat, [1 + op['i'] + j for j in range(op['n'])])
+            uni = np.linalg.norm(mat @ mat.conj().T - np.eye(len(mat))) < 1e-10
+            exact = not op['renormalize']
+            if not uni:
+                modified = True
+            if op['unitary'] is False or not uni:      # canonical_form is called by apply_local_op
+                if modified:
+                    ncanon += 1
+                canon, modified = True, False
+        elif t == 'canonical_form':
+            want = ref
+            exact = not op['renormalize']
+            if modified:
+                ncanon += 1
+            canon, modified = True, False
+        elif t == 'set_B_perturbed':
+            want = None        # a new state: whatever the stored tensors denote by their labels
+            canon, modified = False, True
+        elif t == 'set_svd_theta':
+            want = ref
+            exact = canon      # the singular values are stored normalised: a non-normalised theta is rescaled
+        else:                  # convert_form: state and norm unchanged
+            want = ref
+        if want is not None:
+            nw, nc = np.linalg.norm(want), np.linalg.norm(cur)
+            if cur.shape != want.shape:
+                fail('%s changed the original outer bond dimensions: %s -> %s' % (t, want.shape, cur.shape), k)
+                return ncanon
+            if exact:
+                if np.linalg.norm(cur - want) > tol * nw:
+                    fail('psi.norm * U_L.theta.V_R (dense state of the segment in the original basis of its outer legs) after %s differs from the '
+                         '%s state before by %.2e (relative); normalised overlap %s' % (
+                             t, 'transformed' if t in ('apply_local_op', 'set_B_scaled') else 'unchanged', np.linalg.norm(cur - want) / nw,
+                             np.round(np.vdot(want, cur) / nw / nc, 8)), k)
+            else:
+                if np.linalg.norm(cur / nc - want / nw) > tol:
+                    fail('U_L.theta.V_R (dense state of the segment in the original basis of its outer legs) after %s is not a positive multiple '
+                         'of the %s state before: normalised overlap %s' % (
+                             t, 'transformed' if t == 'apply_local_op' else 'unchanged', np.round(np.vdot(want, cur) / nw / nc, 8)), k)
+                if abs(nrm - prev_nrm) > 1e-9 * abs(prev_nrm) and t != 'set_svd_theta':
+                    fail('%s(renormalize=True) changed psi.norm from %r to %r' % (t, prev_nrm, nrm), k)
+        ex = r['extra'][k - 1] if k - 1 < len(r['extra']) else {}
+        if 'ov_error' in ex:
+            fail('MPS.overlap between a copy taken before %s and the state after raises %s' % (t, ex['ov_error']), k)
+        elif 'ov_ba' in ex:
+            for name, a, c in (('<before|after>', prev, cur), ('<before|before>', prev, prev), ('<after|after>', cur, cur)):
+                got = cplx(ex['ov_' + {'<before|after>': 'ba', '<before|before>': 'bb', '<after|after>': 'aa'}[name]])
+                w = np.vdot(a, c)
+                if abs(got - w) > 10 * tol * np.linalg.norm(a) * np.linalg.norm(c):
+                    fail('MPS.overlap %s around %s = %r, the dense states (boundaries included) give %r' % (name, t, got, w), k)
+            if t == 'canonical_form':
+                ba, bb, aa = cplx(ex['ov_ba']), cplx(ex['ov_bb']), cplx(ex['ov_aa'])
+                if abs(ba / np.sqrt(abs(bb * aa)) - 1) > 10 * tol:
+                    fail('MPS.overlap of a copy taken before canonical_form with the canonicalised state, normalised: %r instead of 1' % (
+                        ba / np.sqrt(abs(bb * aa)),), k)
+        if canon and t in ('canonical_form', 'apply_local_op'):
+            if abs(np.linalg.norm(cur) - abs(nrm)) > tol * abs(nrm):
+                fail('after %s the tensors are not normalised: |theta| = %.10f' % (t, np.linalg.norm(cur) / abs(nrm)), k)
+            full = embed(cur)
+            full = full / np.linalg.norm(full)
+            Ss = stored(A, kk, o)[1]
+            for cut in range(0, n + 1):
+                # axes of full: [env-left (flattened) | a0] , p_0..p_n-1, [env-right (flattened) | b0]
+                dl = int(np.prod(full.shape[:1 + cut]))
+                sd = np.linalg.svd(full.reshape(dl, -1), compute_uv=False)
+                m = cmp_spec(Ss[cut], sd / np.linalg.norm(sd))
+                if m:
+                    fail('stored _S[%d] are not the Schmidt coefficients of the state at that cut (%s)' % (cut, m), k)
+            if o.get('norm_test', 0) > 1e-8:
+                fail('norm_test() = %.2e in canonical form' % o['norm_test'], k)
+        ref = cur
+    return ncanon
 
 
 # ------------------------------------------------------------------------------------------------ main
@@ -663,6 +968,10 @@ def main(ctx):
     cases = []
     for c in common.corpus_cases('C07'):
         cases.append(c['case'])
+    if ctx.replay_in:
+        doc = json.load(open(ctx.replay_in))
+        if isinstance(doc.get('input'), dict) and isinstance(doc['input'].get('case'), dict) and 'state' in doc['input']['case']:
+            cases.append(doc['input']['case'])
     for n in range(nfin):
         spec = gen_finite_case(rng)
         L = len(spec['sites'])
@@ -691,6 +1000,22 @@ def main(ctx):
         dims = [G.std_table(k)[0] for k in spec['sites']]
         cases.append({'state': spec, 'ops': gen_c07_ops(rng, L, 'infinite', rng.randint(0, 4)),
                       'want': {'rdm': inf_segments(rng, L, dims)}})
+    # crossing / interleaved coverings with several charge sectors per bond and generic Schmidt weights; every history
+    # passes through the 'A' and the 'C' form (own random stream: the cases above do not depend on it)
+    rx = _random.Random(ctx.seed * 7919 + 727)
+    for n in range(ctx.pick(36, 300) * mult):
+        spec = G.gen_covering_x(rx)
+        L = len(spec['sites'])
+        ops = gen_c07_ops(rx, L, 'finite', rx.randint(0, 2))
+        for f in ('A', 'C'):
+            pos = rx.choice([j for j in range(len(ops) + 1) if j == 0 or ops[j - 1]['op'] != 'set_B_scaled'])
+            ops.insert(pos, {'op': 'convert_form', 'forms': f})
+        cases.append({'state': spec, 'ops': ops, 'want': {}, 'stream': 'covering-x'})
+    # segments with non-trivial outer bonds, repeated canonicalisations interleaved with modifications near both
+    # boundaries; the dense state includes segment_boundaries and psi.norm (own random stream)
+    rs = _random.Random(ctx.seed * 7919 + 737)
+    for n in range(ctx.pick(70, 600) * mult):
+        cases.append(gen_segment_dense_case(rs, SI))
     # drop infinite bflat cases whose reference is ill-conditioned (degenerate transfer matrix)
     datas = []
     keep = []
@@ -767,14 +1092,21 @@ def main(ctx):
             continue
         if bc == 'finite':
             check_finite(ctx, case, r, A, key, D, SI)
+        elif case.get('stream') == 'segment-dense':
+            ncan = check_segment_dense(ctx, case, r, A, key, D, SI)
+            o0 = r['obs'][0]
+            ctx.count('segment-dense', [spec, case['ops']], nontrivial=bool(o0.get('chi')) and o0['chi'][0] > 1 and o0['chi'][-1] > 1 and ncan >= 2,
+                      sample={'sites': spec['sites'], 'segment': spec['segment'], 'parent': method, 'ops': [o['op'] for o in case['ops']],
+                              'chi': o0.get('chi'), 'recanonicalised': ncan})
         elif bc == 'segment':
             check_segment(ctx, case, r, A, key, D, SI)
         else:
             check_infinite(ctx, case, r, A, key, D, SI)
         nontriv = max([max(o['chi']) if o and o.get('chi') else 1 for o in r['obs']] + [1]) > 1
-        ctx.count(bc, [spec, case['ops']], nontrivial=nontriv,
-                  sample={'sites': spec['sites'], 'build': spec.get('build', {}).get('method', 'segment'), 'ops': [o['op'] for o in case['ops']],
-                          'chi': r['obs'][0].get('chi'), 'form0': r['obs'][0]['form']})
+        if case.get('stream') != 'segment-dense':
+            ctx.count(case.get('stream', bc), [spec, case['ops']], nontrivial=nontriv,
+                      sample={'sites': spec['sites'], 'build': spec.get('build', {}).get('method', 'segment'), 'ops': [o['op'] for o in case['ops']],
+                              'chi': r['obs'][0].get('chi'), 'form0': r['obs'][0]['form']})
         for lit in form_cases(case, r, A, key, bc != 'infinite'):
             if isinstance(lit, tuple):
                 form_lits.append(lit[1])
@@ -808,5 +1140,9 @@ def main(ctx):
 
 RULE = ('finite chains L 2-8 (spin-1/2, spin-1, fermion, spinful fermion, boson sites; conserve None/Sz/N/parity; heterogeneous), constructors '
         'from_product_state/from_full/from_Bflat(non-canonical, any form)/from_singlets/from_product_mps_covering/two-site gates, segments cut out of them, '
+        'coverings by crossing local MPS of 1-3 sites (spin-1/2, 1, 3/2, bosons; Sz/N/parity; L 4-6; canonicalised or raw local states), '
         'infinite unit cells 1-4; random histories of convert_form/get_B/get_theta/set_svd_theta/set_B(rescaled)/canonical_form; '
+        'segment-dense: segments (2-5 sites, both outer bonds inside the parent, L 4-7) with 2-4 rounds of [set_B(perturbed tensor, any form label) / '
+        'apply_local_op(1-2 sites, unitary or not, renormalize or not) / rescaled set_B / convert_form / set_svd_theta near the boundaries, then '
+        'canonical_form(renormalize True/False)], non-trivial = both outer bond dimensions > 1 and at least two canonicalisations of a modified state; '
         'a case is non-trivial when some bond dimension exceeds 1; distinct = distinct (state spec, history)')
